@@ -1,6 +1,7 @@
 (* Lemmas about Model/ConfigMerge.v (C15). *)
 From Coq Require Import List String ZArith Bool Lia Permutation.
 From IocVerif Require Import Model.Sorter Model.ConfigMerge Proofs.SorterProofs.
+From IocVerif Require Model.Strconv Proofs.StrconvProofs.
 Import ListNotations.
 Local Open Scope list_scope.
 
@@ -683,10 +684,75 @@ Qed.
 
 (* "--app.config=k=a" followed by "--app.config=k.k2...=b" panics, whatever came before *)
 Lemma args_scalar_then_dotted_panics m k a k2 r b rest :
-  args_fold (([k], a) :: (k :: k2 :: r, b) :: rest) m = None.
+  args_fold (([k], CLeaf a) :: (k :: k2 :: r, b) :: rest) m = None.
 Proof.
   cbn [args_fold pset]. rewrite lookup_set_key. reflexivity.
 Qed.
+
+(* ---------------------------------------------------------------------------------------- *)
+(* the args loader from the argument strings: the value is everything after the first '=' *)
+
+Lemma has_prefix_app (p r : Strconv.bytes) : Strconv.has_prefix p (p ++ r) = true.
+Proof. induction p as [|a p IH]; cbn; [reflexivity|]. rewrite N.eqb_refl. exact IH. Qed.
+
+Lemma skipn_app_exact {A} (p r : list A) : skipn (length p) (p ++ r) = r.
+Proof. induction p as [|a p IH]; cbn; [reflexivity|exact IH]. Qed.
+
+Lemma trim_prefix_app p r : trim_prefix p (p ++ r) = r.
+Proof. unfold trim_prefix. rewrite has_prefix_app. apply skipn_app_exact. Qed.
+
+Lemma flag_prefix_of_flag_eq r : Strconv.has_prefix lit_flag (lit_flag_eq ++ r) = true.
+Proof. reflexivity. Qed.
+
+(* "--app.config=" ++ k ++ "=" ++ v with no '=' in k: key k, value text v - whatever v contains *)
+Lemma parse_arg_key_value k v :
+  Strconv.byte_index b_eq k = None ->
+  parse_arg (lit_flag_eq ++ k ++ b_eq :: v) =
+  Some (Strconv.rbind (Strconv.parse_any v) (fun tv => Strconv.Ok (key_path k, tree_of_cval tv))).
+Proof.
+  intros Hk. unfold parse_arg. rewrite flag_prefix_of_flag_eq, trim_prefix_app.
+  rewrite (StrconvProofs.split_first_app b_eq k v Hk). reflexivity.
+Qed.
+
+Lemma parse_arg_key_plain k v :
+  Strconv.byte_index b_eq k = None -> Strconv.plain v = true ->
+  parse_arg (lit_flag_eq ++ k ++ b_eq :: v) = Some (Strconv.Ok (key_path k, CLeaf (AStr (string_of_bytes v)))).
+Proof.
+  intros Hk Hp. rewrite (parse_arg_key_value k v Hk), (StrconvProofs.plain_parse v Hp). reflexivity.
+Qed.
+
+(* "--app.config=" ++ k without any '=': the value is the empty text *)
+Lemma parse_arg_key_only k :
+  Strconv.byte_index b_eq k = None ->
+  parse_arg (lit_flag_eq ++ k) = Some (Strconv.Ok (key_path k, CLeaf (AStr ""))).
+Proof.
+  intros Hk. unfold parse_arg. rewrite flag_prefix_of_flag_eq, trim_prefix_app.
+  rewrite (StrconvProofs.split_first_none b_eq k Hk). reflexivity.
+Qed.
+
+Lemma parse_arg_other a : Strconv.has_prefix lit_flag a = false -> parse_arg a = None.
+Proof. intros H. unfold parse_arg. rewrite H. reflexivity. Qed.
+
+(* the string loader is the typed loader on the typed arguments, when every argument types *)
+Lemma argv_fold_typed argv : forall args m,
+  argv_typed argv = Strconv.Ok args ->
+  argv_fold argv m = match args_fold args m with
+                     | None => LoadPanic
+                     | Some [] => LoadOk None
+                     | Some m' => LoadOk (Some m')
+                     end.
+Proof.
+  induction argv as [|a r IH]; intros args m H; cbn [argv_typed argv_fold] in *.
+  - injection H as <-. cbn [args_fold]. destruct m; reflexivity.
+  - destruct (parse_arg a) as [[[p v]| |]|]; cbn [Strconv.rbind] in H; try discriminate.
+    + destruct (argv_typed r) as [xs| |] eqn:E; cbn [Strconv.rbind] in H; try discriminate.
+      injection H as <-. cbn [args_fold]. destruct (pset p v m) as [m'|]; [|reflexivity].
+      apply IH. reflexivity.
+    + apply IH, H.
+Qed.
+
+Lemma argv_load_typed argv args : argv_typed argv = Strconv.Ok args -> argv_load argv = args_load args.
+Proof. intros H. unfold argv_load, args_load. apply argv_fold_typed, H. Qed.
 
 (* ---------------------------------------------------------------------------------------- *)
 (* one Configure used in several steps *)
